@@ -58,6 +58,10 @@ M = [
  ("C20", "table-vs-standard-check-off", "config/_potential_form_registry.py", "      if d.name in self._potential_forms or d.name in table_forms:", "      if False:"),
  ("C20", "reversed-pair-check-off", "config/_config_parser.py", "        if (p in seen) or (rev_p in seen):", "        if (p in seen):"),
  ("C20", "revert-optionxform", "config/_config_parser.py", "    option = option.strip().replace(' ', '').replace('\\t', '')", "    option = option.strip()"),
+ ("C16", "dlpoly-synonym-removed", "config/_config_parser.py", "    'DL_POLY' : 'DLPOLY'", "    'DL_POLY' : 'DL_POLY'"),
+ ("C16", "dlpoly-mod4-config-off", "config/_tabulation_factories.py", "if cutoffs.nr % 4 != 0:", "if False and cutoffs.nr % 4 != 0:"),
+ ("C16", "revert-rmin-guard", "_modifiers.py", "      if not (detach_point.r < r_min < attach_point.r):", "      if not r_min < attach_point.r and not r_min > detach_point.r:"),
+ ("C16", "revert-table-xy-check", "config/_config_parser.py", '      if not ("x" in section and "y" in section):', '      if not "x" and "y" in section:'),
  ("C03", "setfl-nr-minus-1", "eam_tabulation.py", None, None),
 ]
 def main():
